@@ -229,6 +229,19 @@ func Replay(w Witness) int {
 	}
 	_ = json.Unmarshal(w.Replay, &kind)
 	switch kind.Kind {
+	case "script":
+		// the one scripted execution of C13 (open-while-locked): run it again and report what it reports
+		rep := NewReport(w.Prop, "replay")
+		RunOpenFailureScript(rep)
+		for sig, wit := range rep.Witnesses {
+			fmt.Printf("  [%s] %s\n", sig, wit.Detail)
+		}
+		if rep.Witnesses[w.Sig] != nil {
+			fmt.Println("REPRODUCED")
+			return 1
+		}
+		fmt.Println("not reproduced")
+		return 0
 	case "kv":
 		var rp KVReplay
 		_ = json.Unmarshal(w.Replay, &rp)
